@@ -80,6 +80,18 @@ CliTok == /\ Is("clitok")
                                                 /\ ChainTotal(dict, d.core) = OptCost(dict, opts, s, T))))
           /\ UNCHANGED <<dict, opts, ws, cnt, memo, lastop, lastp>>
 
+(* `tokenize -O wakati`: one line per sentence, the surfaces of the tokens (as -O detail reported
+   them for the same sentence) separated by single blanks *)
+RECURSIVE JoinSp(_, _)
+JoinSp(surfs, i) == IF i > Len(surfs) THEN <<>>
+                    ELSE IF i = 1 THEN surfs[1] \o JoinSp(surfs, 2)
+                    ELSE <<32>> \o surfs[i] \o JoinSp(surfs, i + 1)
+CliWakati == /\ Is("cliwakati")
+             /\ AT("C01", "cli-wakati-line-is-the-surfaces-separated-by-blanks",
+                   /\ E.nlines = E.want_lines
+                   /\ [k \in 1..Len(E.line) |-> E.line[k]] = JoinSp(E.surfs, 1))
+             /\ UNCHANGED <<dict, opts, ws, cnt, memo, lastop, lastp>>
+
 (* `reorder` tokenizes the training lines with a plain tokenizer (no ignore_space, no grouping limit) *)
 RECURSIVE SumCounts(_, _, _, _)
 SumCounts(D, lines, i, acc) ==
@@ -107,7 +119,7 @@ CliMapRel == /\ Is("climaprel")
 CliErr == Is("cli_err") /\ A("C10", "tool-failed", FALSE) /\ UNCHANGED <<dict, opts, ws, cnt, memo, lastop, lastp>>
 
 Lift(a) == a /\ UNCHANGED <<lastop, lastp>>
-DNext == \/ CliTok \/ CliOrder \/ CliMapRel \/ CliErr \/ DSession \/ Proj \/ User \/ Map \/ WR \/ MapRel \/ DProbs \/ Lift(CInit) \/ Lift(CUpd)
+DNext == \/ CliTok \/ CliWakati \/ CliOrder \/ CliMapRel \/ CliErr \/ DSession \/ Proj \/ User \/ Map \/ WR \/ MapRel \/ DProbs \/ Lift(CInit) \/ Lift(CUpd)
          \/ Lift(Reset) \/ Lift(Tok) \/ Lift(Read) \/ Lift(PanicStuck) \/ Lift(PanicElsewhere)
 DSpec == DInit /\ [][DNext]_dvars
 ===========================================================================
